@@ -17,7 +17,9 @@ verus! {
 //@item src/stack.rs struct InstanceObject
 //@item src/stack.rs enum StackObject
 //@item src/stack.rs struct Stack
+//@derives Default
 //@item src/state.rs struct State
+//@derives Default
 //@item src/generator/mod.rs struct Generator
 //@field-type mutators VfMutators
 #[verifier::external_body]
